@@ -203,7 +203,7 @@ Section Custom.
     render_key TO F sty s k w =
       (let buf := expand_tabs (sty_tab sty) (t_write TO tr (view_of s)) in
        match w with Some w => pad_left buf w | None => buf end, None).
-  Proof. intros sty s k w tr H. unfold render_key. rewrite H. reflexivity. Qed.
+  Proof. intros sty s k w tr H. unfold render_key, key_text. rewrite H. reflexivity. Qed.
 
   Lemma builtin_render : forall (sty : style T) s k w,
     lookup k (customs sty) = None ->
@@ -212,7 +212,7 @@ Section Custom.
        match w with Some w => pad_left buf w | None => buf end,
        snd (key_value F (tick_strings sty) s k w)).
   Proof.
-    intros sty s k w H. unfold render_key. rewrite H.
+    intros sty s k w H. unfold render_key, key_text. rewrite H.
     destruct (key_value F (tick_strings sty) s k w). reflexivity.
   Qed.
 
@@ -220,25 +220,233 @@ Section Custom.
     match p with
     | PLit l => l
     | PKey k w => fst (render_key TO F sty s k w)
+    | PNewLine => []
     end.
+  (** a part of a line that does not set the wide element (in particular: not a NewLine) *)
   Definition part_narrow (sty : style T) (s : snapshot) (p : part) : Prop :=
     match p with
     | PLit _ => True
     | PKey k w => snd (render_key TO F sty s k w) = None
+    | PNewLine => False
     end.
 
-  Lemma render_parts_concat : forall sty s ps cur,
+  Definition merge_wide (wd' wd : option wide) : option wide :=
+    match wd' with Some x => Some x | None => wd end.
+
+  Lemma render_parts_narrow : forall sty s ps cur wd,
     Forall (part_narrow sty s) ps ->
-    render_parts TO F sty s ps cur None = (cur ++ concat (map (part_text sty s) ps), None).
+    render_parts TO F sty s ps cur wd = (cur ++ concat (map (part_text sty s) ps), wd).
   Proof.
-    intros sty s ps. induction ps as [| p r IH]; intros cur Hn.
+    intros sty s ps. induction ps as [| p r IH]; intros cur wd Hn.
     - cbn. rewrite app_nil_r. reflexivity.
-    - inversion Hn as [| ? ? Hp Hr]; subst. destruct p as [l | k w].
+    - inversion Hn as [| ? ? Hp Hr]; subst. destruct p as [l | k w |].
       + cbn [render_parts map concat part_text]. rewrite IH by exact Hr.
         rewrite app_assoc. reflexivity.
       + cbn [render_parts map concat part_text]. cbn [part_narrow] in Hp.
         destruct (render_key TO F sty s k w) as [out wd'] eqn:E. cbn [snd] in Hp. subst wd'.
         cbn [fst]. rewrite IH by exact Hr. rewrite app_assoc. reflexivity.
+      + destruct Hp.
+  Qed.
+
+  Lemma render_parts_concat : forall sty s ps cur,
+    Forall (part_narrow sty s) ps ->
+    render_parts TO F sty s ps cur None = (cur ++ concat (map (part_text sty s) ps), None).
+  Proof. intros sty s ps cur Hn. apply render_parts_narrow. exact Hn. Qed.
+
+  (** narrow parts in front of the rest of a line *)
+  Lemma render_parts_app_narrow : forall sty s pre rest cur wd,
+    Forall (part_narrow sty s) pre ->
+    render_parts TO F sty s (pre ++ rest) cur wd
+    = render_parts TO F sty s rest (cur ++ concat (map (part_text sty s) pre)) wd.
+  Proof.
+    intros sty s pre. induction pre as [| p r IH]; intros rest cur wd Hn.
+    - cbn. rewrite app_nil_r. reflexivity.
+    - inversion Hn as [| ? ? Hp Hr]; subst. destruct p as [l | k w |].
+      + cbn [app render_parts map concat part_text]. rewrite IH by exact Hr.
+        rewrite app_assoc. reflexivity.
+      + cbn [app render_parts map concat part_text]. cbn [part_narrow] in Hp.
+        destruct (render_key TO F sty s k w) as [out wd'] eqn:E. cbn [snd] in Hp. subst wd'.
+        cbn [fst]. rewrite IH by exact Hr. rewrite app_assoc. reflexivity.
+      + destruct Hp.
+  Qed.
+
+  (** the wide element a line starts with only matters if the line does not set its own: the text
+      of the line does not depend on it *)
+  Lemma render_parts_wide_in : forall sty s ps cur wd,
+    render_parts TO F sty s ps cur wd
+    = (fst (render_parts TO F sty s ps cur None),
+       merge_wide (snd (render_parts TO F sty s ps cur None)) wd).
+  Proof.
+    intros sty s ps. induction ps as [| p r IH]; intros cur wd.
+    - reflexivity.
+    - destruct p as [l | k w |].
+      + cbn [render_parts]. apply IH.
+      + cbn [render_parts]. destruct (render_key TO F sty s k w) as [out wd'].
+        rewrite IH. rewrite (IH _ (match wd' with Some x => Some x | None => None end)).
+        cbn [fst snd]. f_equal.
+        destruct (snd (render_parts TO F sty s r (cur ++ out) None)); destruct wd'; reflexivity.
+      + reflexivity.
+  Qed.
+
+  (** ---------------------------------------------------------------- the scratch buffer *)
+  Lemma m_placeholder_render_key : forall (sty : style T) s k w cur buf wd,
+    m_placeholder TO F sty s k w cur buf wd
+    = (cur ++ fst (render_key TO F sty s k w), fst (key_text TO F sty s k w),
+       merge_wide (snd (render_key TO F sty s k w)) wd).
+  Proof.
+    intros sty s k w cur buf wd. unfold m_placeholder, render_key.
+    destruct (key_text TO F sty s k w) as [v wd']. reflexivity.
+  Qed.
+
+  Lemma m_push_line_lines : forall wd cur buf s tw,
+    fst (m_push_line F wd cur buf s tw) = push_line F wd cur s tw.
+  Proof. intros [[|] |] cur buf s tw; reflexivity. Qed.
+
+  (** whatever the scratch buffer holds when a part is reached - in particular the padded message
+      that WideElement::Message::expand leaves in it at the end of a wide_msg line - never
+      reaches the output: format_state is the loop over (cur, wide) alone *)
+  Lemma m_format_no_buf : forall (sty : style T) s tw ps cur buf wd,
+    m_format TO F sty s tw ps cur buf wd = format_parts TO F sty s tw ps cur wd.
+  Proof.
+    intros sty s tw ps. induction ps as [| p r IH]; intros cur buf wd.
+    - cbn [m_format format_parts]. destruct cur; [reflexivity | apply m_push_line_lines].
+    - destruct p as [l | k w |].
+      + cbn [m_format format_parts]. apply IH.
+      + cbn [m_format format_parts]. rewrite m_placeholder_render_key.
+        destruct (render_key TO F sty s k w) as [out wd']. cbn [fst snd]. apply IH.
+      + cbn [m_format format_parts].
+        pose proof (m_push_line_lines wd cur buf s tw) as H.
+        destruct (m_push_line F wd cur buf s tw) as [ls buf']. cbn [fst] in H. rewrite H, IH.
+        reflexivity.
+  Qed.
+
+  Lemma m_format_buf_irrelevant : forall (sty : style T) s tw ps cur buf buf' wd,
+    m_format TO F sty s tw ps cur buf wd = m_format TO F sty s tw ps cur buf' wd.
+  Proof. intros. rewrite !m_format_no_buf. reflexivity. Qed.
+
+  Lemma format_state_parts : forall (sty : style T) s tw,
+    format_state TO F sty s tw = format_parts TO F sty s tw (template sty) [] None.
+  Proof. intros. apply m_format_no_buf. Qed.
+
+  (** ---------------------------------------------------------------- lines *)
+  Definition is_newline (p : part) : bool := match p with PNewLine => true | _ => false end.
+  Definition single_line (ps : list part) : Prop := Forall (fun p => p <> PNewLine) ps.
+
+  Lemma split_lines_nonnil : forall ps, split_lines ps <> [].
+  Proof.
+    induction ps as [| p r IH]; [discriminate |].
+    destruct p; cbn [split_lines]; try discriminate; destruct (split_lines r); discriminate.
+  Qed.
+
+  Lemma split_lines_cons : forall p r,
+    p <> PNewLine ->
+    split_lines (p :: r) = (p :: hd [] (split_lines r)) :: tl (split_lines r).
+  Proof.
+    intros p r Hp. pose proof (split_lines_nonnil r) as Hn.
+    destruct p; try congruence; cbn [split_lines]; destruct (split_lines r); try congruence;
+      reflexivity.
+  Qed.
+
+  (** no template line contains a NewLine part *)
+  Lemma split_lines_single : forall ps, Forall single_line (split_lines ps).
+  Proof.
+    induction ps as [| p r IH].
+    - constructor; constructor.
+    - destruct (is_newline p) eqn:E.
+      + destruct p; try discriminate. cbn [split_lines]. constructor; [constructor | exact IH].
+      + assert (Hp : p <> PNewLine) by (intros ->; discriminate).
+        rewrite split_lines_cons by exact Hp. pose proof (split_lines_nonnil r) as Hn.
+        destruct (split_lines r) as [| l ls]; [congruence |].
+        inversion IH as [| ? ? Hl Hls]; subst. cbn [hd tl].
+        constructor; [constructor; assumption | exact Hls].
+  Qed.
+
+  (** a template without NewLine parts is its own single line *)
+  Lemma split_lines_of_single : forall ps, single_line ps -> split_lines ps = [ps].
+  Proof.
+    induction ps as [| p r IH]; intros H; [reflexivity |].
+    inversion H as [| ? ? Hp Hr]; subst. rewrite split_lines_cons by exact Hp.
+    rewrite IH by exact Hr. reflexivity.
+  Qed.
+
+  (** joining the lines again (with NewLine parts between them) gives the template back *)
+  Fixpoint unsplit (segs : list (list part)) : list part :=
+    match segs with
+    | [] => []
+    | [seg] => seg
+    | seg :: rest => seg ++ PNewLine :: unsplit rest
+    end.
+  Lemma unsplit_split : forall ps, unsplit (split_lines ps) = ps.
+  Proof.
+    induction ps as [| p r IH]; [reflexivity |].
+    destruct (is_newline p) eqn:E.
+    - destruct p; try discriminate. cbn [split_lines]. pose proof (split_lines_nonnil r) as Hn.
+      cbn [unsplit]. destruct (split_lines r) eqn:Er; [congruence |]. cbn [app]. rewrite IH.
+      reflexivity.
+    - assert (Hp : p <> PNewLine) by (intros ->; discriminate).
+      rewrite split_lines_cons by exact Hp. pose proof (split_lines_nonnil r) as Hn.
+      destruct (split_lines r) as [| l ls]; [congruence |]. cbn [hd tl].
+      destruct ls as [| l2 ls]; cbn [unsplit] in *; rewrite <- IH; reflexivity.
+  Qed.
+
+  Lemma template_lines : forall ps,
+    Forall single_line (split_lines ps) /\ unsplit (split_lines ps) = ps.
+  Proof. intros ps. split; [apply split_lines_single | apply unsplit_split]. Qed.
+
+  Lemma format_segs_step : forall (sty : style T) s tw seg rest cur wd,
+    format_segs TO F sty s tw (seg :: rest) cur wd
+    = match rest with
+      | [] => match fst (render_parts TO F sty s seg cur wd) with
+              | [] => []
+              | c => push_line F (snd (render_parts TO F sty s seg cur wd)) c s tw
+              end
+      | _ => push_line F (snd (render_parts TO F sty s seg cur wd))
+                       (fst (render_parts TO F sty s seg cur wd)) s tw
+             ++ format_segs TO F sty s tw rest [] (snd (render_parts TO F sty s seg cur wd))
+      end.
+  Proof.
+    intros. cbn [format_segs]. destruct (render_parts TO F sty s seg cur wd) as [c w].
+    cbn [fst snd]. destruct rest; [destruct c |]; reflexivity.
+  Qed.
+
+  (** the loop of format_state, line by line *)
+  Lemma format_parts_segs : forall (sty : style T) s tw ps cur wd,
+    format_parts TO F sty s tw ps cur wd = format_segs TO F sty s tw (split_lines ps) cur wd.
+  Proof.
+    intros sty s tw ps. induction ps as [| p r IH]; intros cur wd.
+    - cbn [format_parts split_lines format_segs render_parts]. destruct cur; reflexivity.
+    - pose proof (split_lines_nonnil r) as Hn. destruct p as [l | k w |].
+      + cbn [format_parts]. rewrite IH. rewrite split_lines_cons by discriminate.
+        destruct (split_lines r) as [| seg rest]; [congruence |]. cbn [hd tl].
+        rewrite !format_segs_step. cbn [render_parts]. reflexivity.
+      + cbn [format_parts]. rewrite split_lines_cons by discriminate.
+        destruct (render_key TO F sty s k w) as [out wd'] eqn:E. rewrite IH.
+        destruct (split_lines r) as [| seg rest]; [congruence |]. cbn [hd tl].
+        rewrite !format_segs_step. cbn [render_parts]. rewrite E. reflexivity.
+      + cbn [format_parts split_lines]. rewrite IH.
+        destruct (split_lines r) as [| seg rest]; [congruence |].
+        rewrite (format_segs_step sty s tw [] (seg :: rest)). cbn [render_parts fst snd].
+        reflexivity.
+  Qed.
+
+  Lemma format_state_segs : forall (sty : style T) s tw,
+    format_state TO F sty s tw = format_segs TO F sty s tw (split_lines (template sty)) [] None.
+  Proof. intros. rewrite format_state_parts. apply format_parts_segs. Qed.
+
+  (** on a template without NewLine parts the general format_state is the single-line one *)
+  Lemma format_state_single_line : forall (sty : style T) s tw,
+    single_line (template sty) ->
+    format_state TO F sty s tw = format_state_single TO F sty s tw.
+  Proof.
+    intros sty s tw H. rewrite format_state_segs, (split_lines_of_single _ H).
+    unfold format_state_single. cbn [format_segs].
+    destruct (render_parts TO F sty s (template sty) [] None) as [c w]. reflexivity.
+  Qed.
+
+  Lemma narrow_single_line : forall sty s ps, Forall (part_narrow sty s) ps -> single_line ps.
+  Proof.
+    intros sty s ps H. unfold single_line. eapply Forall_impl; [| exact H].
+    intros p Hp ->. exact Hp.
   Qed.
 
   (** without a wide element the line is the concatenation of the parts, split at newlines; an
@@ -251,7 +459,8 @@ Section Custom.
       | line => split_nl line []
       end.
   Proof.
-    intros sty s tw Hn. unfold format_state. rewrite render_parts_concat by exact Hn.
+    intros sty s tw Hn. rewrite format_state_single_line by (eapply narrow_single_line; exact Hn).
+    unfold format_state_single. rewrite render_parts_concat by exact Hn.
     cbn [app]. destruct (concat (map (part_text sty s) (template sty))); reflexivity.
   Qed.
 End Custom.
@@ -537,6 +746,7 @@ Section Frames.
     | PKey k w =>
         lookup k (customs sty) = None /\ In k DOCUMENTED_KEYS
         /\ k <> "wide_bar" /\ k <> "wide_msg" /\ (k = "per_sec" -> w = None)
+    | PNewLine => False
     end.
   Definition doc_text (sty : style T) (s : snapshot) (p : part) : text :=
     match p with
@@ -544,6 +754,7 @@ Section Frames.
     | PKey k w =>
         let v := fst (documented F (tick_strings sty) s k w) in
         match w with Some w => pad_left v w | None => v end
+    | PNewLine => []
     end.
 
   Lemma doc_parts_text : forall sty s ps,
@@ -553,11 +764,11 @@ Section Frames.
   Proof.
     intros sty s ps H. induction H as [| p r Hp Hr [IH1 IH2]]; [split; constructor |].
     split.
-    - cbn [map]. rewrite IH1. f_equal. destruct p as [l | k w]; [reflexivity |].
+    - cbn [map]. rewrite IH1. f_equal. destruct p as [l | k w |]; [reflexivity | | destruct Hp].
       destruct Hp as (Hc & Hin & Hb & Hm & Hq). cbn [part_text doc_text].
       rewrite builtin_render by exact Hc. cbn [fst].
       rewrite table_correct by assumption. reflexivity.
-    - constructor; [| exact IH2]. destruct p as [l | k w]; [exact I |].
+    - constructor; [| exact IH2]. destruct p as [l | k w |]; [exact I | | destruct Hp].
       destruct Hp as (Hc & Hin & Hb & Hm & Hq). cbn [part_narrow].
       rewrite builtin_render by exact Hc. cbn [snd]. apply narrow_keys; assumption.
   Qed.
@@ -594,7 +805,9 @@ Section Frames.
     template sty = [PKey "wide_msg" None] ->
     format_state TO F sty s tw = split_nl (trim_end (pad_left_trunc (s_message s) tw)) [].
   Proof.
-    intros sty s Hc Ht. unfold format_state. rewrite Ht. cbn [render_parts].
+    intros sty s Hc Ht.
+    rewrite format_state_single_line by (rewrite Ht; repeat constructor; discriminate).
+    unfold format_state_single. rewrite Ht. cbn [render_parts].
     rewrite builtin_render by exact Hc. unfold key_value. eval_key.
     cbn [builtin_value fst snd app expand_wide rev replace0 flat_map N.eqb text_width fold_right
          char_width].
@@ -606,11 +819,341 @@ Section Frames.
     template sty = [PKey "wide_bar" None] ->
     format_state TO F sty s tw = split_nl (f_bar F (o_fraction (s_obs s)) tw) [].
   Proof.
-    intros sty s Hc Ht. unfold format_state. rewrite Ht. cbn [render_parts].
+    intros sty s Hc Ht.
+    rewrite format_state_single_line by (rewrite Ht; repeat constructor; discriminate).
+    unfold format_state_single. rewrite Ht. cbn [render_parts].
     rewrite builtin_render by exact Hc. unfold key_value. eval_key.
     cbn [builtin_value fst snd app expand_wide rev replace0 flat_map N.eqb text_width fold_right
          char_width].
     rewrite app_nil_r, N.sub_0_r. reflexivity.
   Qed.
+
+  (** ---------------------------------------------------------------- multi-line templates *)
+  Local Open Scope list_scope.
+  Lemma replace0_no_nul : forall (by_ t : text), ~ In 0 t -> replace0 by_ t = t.
+  Proof.
+    intros by_ t. unfold replace0. induction t as [| c r IH]; intros Hn; [reflexivity |].
+    cbn [flat_map]. destruct (N.eqb_spec c 0) as [-> | Hc].
+    - exfalso. apply Hn. left. reflexivity.
+    - rewrite IH by (intros H; apply Hn; right; exact H). reflexivity.
+  Qed.
+
+  Lemma replace0_app : forall (by_ a b : text),
+    replace0 by_ (a ++ b) = (replace0 by_ a ++ replace0 by_ b)%list.
+  Proof. intros. unfold replace0. apply flat_map_app. Qed.
+
+  (** the marker of the wide element between two texts without NUL *)
+  Lemma replace0_marker : forall (by_ a b : text),
+    ~ In 0 a -> ~ In 0 b -> replace0 by_ (a ++ 0 :: b) = (a ++ by_ ++ b)%list.
+  Proof.
+    intros by_ a b Ha Hb. rewrite replace0_app. rewrite (replace0_no_nul by_ a Ha).
+    change (0 :: b) with ([0] ++ b)%list. rewrite replace0_app, (replace0_no_nul by_ b Hb).
+    unfold replace0. cbn [flat_map N.eqb]. rewrite app_nil_r. reflexivity.
+  Qed.
+
+  (** a wide element carried over from an earlier line does nothing to a text without NUL *)
+  Lemma expand_wide_no_nul : forall w cur s, ~ In 0 cur -> expand_wide F w cur s tw = cur.
+  Proof.
+    intros [|] cur s Hn; unfold expand_wide; cbv zeta; apply replace0_no_nul; exact Hn.
+  Qed.
+
+  Lemma split_nl_nonnil : forall t cur, split_nl t cur <> [].
+  Proof.
+    induction t as [| c r IH]; intros cur; cbn [split_nl]; [discriminate |].
+    destruct (N.eqb c 10); [discriminate | apply IH].
+  Qed.
+
+  Lemma push_line_nil : forall w s, push_line F w [] s tw = [[]].
+  Proof. intros [[|] |] s; reflexivity. Qed.
+
+  Lemma push_line_nonnil : forall w c s, push_line F w c s tw <> [].
+  Proof. intros. unfold push_line. apply split_nl_nonnil. Qed.
+
+  Lemma render_parts_with_template : forall (sty : style T) ps' s ps cur wd,
+    render_parts TO F (with_template sty ps') s ps cur wd = render_parts TO F sty s ps cur wd.
+  Proof.
+    intros sty ps' s ps. induction ps as [| p r IH]; intros cur wd; [reflexivity |].
+    destruct p as [l | k w |]; cbn [render_parts]; [apply IH | | reflexivity].
+    change (render_key TO F (with_template sty ps') s k w) with (render_key TO F sty s k w).
+    destruct (render_key TO F sty s k w) as [out wd']. apply IH.
+  Qed.
+
+  (** one template line rendered as a (single-line) template of its own *)
+  Definition line_alone (sty : style T) (s : snapshot) (seg : list part) : list text :=
+    format_state TO F (with_template sty seg) s tw.
+
+  Lemma line_alone_eq : forall (sty : style T) s seg,
+    single_line seg ->
+    line_alone sty s seg
+    = match fst (render_parts TO F sty s seg [] None) with
+      | [] => []
+      | c => push_line F (snd (render_parts TO F sty s seg [] None)) c s tw
+      end.
+  Proof.
+    intros sty s seg Hs. unfold line_alone.
+    rewrite format_state_single_line by exact Hs.
+    unfold format_state_single. cbn [with_template template]. rewrite render_parts_with_template.
+    destruct (render_parts TO F sty s seg [] None) as [c w]. cbn [fst snd].
+    destruct c; reflexivity.
+  Qed.
+
+  (** the only way a line can see an earlier line: the wide element is never reset, and
+      WideElement::expand replaces EVERY NUL of the line.  A line that has no wide key of its own
+      is [line_ok] when its text contains no NUL (then the carried element finds nothing to
+      replace); a line with a wide key of its own is always [line_ok]. *)
+  Definition line_ok (sty : style T) (s : snapshot) (seg : list part) : Prop :=
+    snd (render_parts TO F sty s seg [] None) = None ->
+    ~ In 0 (fst (render_parts TO F sty s seg [] None)).
+
+  Lemma push_line_carried : forall sty s seg wd,
+    line_ok sty s seg ->
+    push_line F (merge_wide (snd (render_parts TO F sty s seg [] None)) wd)
+              (fst (render_parts TO F sty s seg [] None)) s tw
+    = push_line F (snd (render_parts TO F sty s seg [] None))
+                (fst (render_parts TO F sty s seg [] None)) s tw.
+  Proof.
+    intros sty s seg wd Hok. unfold line_ok in Hok.
+    destruct (snd (render_parts TO F sty s seg [] None)) as [w0 |]; [reflexivity |].
+    cbn [merge_wide]. destruct wd as [w |]; [| reflexivity].
+    unfold push_line. rewrite expand_wide_no_nul by (apply Hok; reflexivity). reflexivity.
+  Qed.
+
+  Lemma format_segs_lines : forall (sty : style T) s segs wd,
+    Forall single_line segs ->
+    Forall (line_ok sty s) segs ->
+    format_segs TO F sty s tw segs [] wd = join_lines (map (line_alone sty s) segs).
+  Proof.
+    intros sty s segs. induction segs as [| seg rest IH]; intros wd Hs Hok; [reflexivity |].
+    inversion Hs as [| ? ? Hs1 Hsr]; subst. inversion Hok as [| ? ? Hok1 Hokr]; subst.
+    rewrite format_segs_step. rewrite render_parts_wide_in. cbn [fst snd].
+    pose proof (push_line_carried sty s seg wd Hok1) as Hc.
+    cbn [map join_lines]. rewrite (line_alone_eq sty s seg Hs1).
+    destruct rest as [| seg2 rest].
+    - cbn [map]. destruct (fst (render_parts TO F sty s seg [] None)) as [| c0 cr] eqn:E;
+        [reflexivity | exact Hc].
+    - rewrite Hc. rewrite IH by assumption. cbn [map].
+      destruct (fst (render_parts TO F sty s seg [] None)) as [| c0 cr].
+      + rewrite push_line_nil. reflexivity.
+      + pose proof (push_line_nonnil (snd (render_parts TO F sty s seg [] None)) (c0 :: cr) s) as Hn.
+        destruct (push_line F (snd (render_parts TO F sty s seg [] None)) (c0 :: cr) s tw);
+          [congruence | reflexivity].
+  Qed.
+
+  (** THE multi-line theorem: the frame of any template is the frame-wise concatenation of its
+      lines, each rendered as a single-line template of its own from the same snapshot (an empty
+      line that is followed by a NewLine is one empty row, the text after the last NewLine no row
+      if it is empty).  Nothing flows from one line into the next. *)
+  Lemma format_state_lines : forall (sty : style T) s,
+    Forall (line_ok sty s) (split_lines (template sty)) ->
+    format_state TO F sty s tw
+    = join_lines (map (line_alone sty s) (split_lines (template sty))).
+  Proof.
+    intros sty s Hok. rewrite format_state_segs.
+    apply format_segs_lines; [apply split_lines_single | exact Hok].
+  Qed.
+
+  (** lines made of narrow parts only: no hypothesis on NUL is needed (no wide element at all) *)
+  Lemma format_segs_narrow : forall (sty : style T) s segs,
+    Forall (Forall (part_narrow TO F sty s)) segs ->
+    format_segs TO F sty s tw segs [] None
+    = join_lines (map (fun seg => match concat (map (part_text TO F sty s) seg) with
+                                  | [] => []
+                                  | line => split_nl line []
+                                  end) segs).
+  Proof.
+    intros sty s segs. induction segs as [| seg rest IH]; intros Hn; [reflexivity |].
+    inversion Hn as [| ? ? Hn1 Hnr]; subst.
+    rewrite format_segs_step. rewrite render_parts_concat by exact Hn1. cbn [fst snd app].
+    cbn [map join_lines]. destruct rest as [| seg2 rest].
+    - cbn [map]. destruct (concat (map (part_text TO F sty s) seg)); reflexivity.
+    - rewrite IH by exact Hnr. cbn [map].
+      destruct (concat (map (part_text TO F sty s) seg)) as [| c0 cr] eqn:E.
+      + reflexivity.
+      + unfold push_line. pose proof (split_nl_nonnil (c0 :: cr) []) as Hnn.
+        destruct (split_nl (c0 :: cr) []); [congruence | reflexivity].
+  Qed.
+
+  Lemma split_lines_Forall : forall (P : part -> Prop) ps,
+    Forall (fun p => p = PNewLine \/ P p) ps -> Forall (Forall P) (split_lines ps).
+  Proof.
+    intros P ps. induction ps as [| p r IH]; intros H.
+    - constructor; constructor.
+    - inversion H as [| ? ? Hp Hr]; subst. specialize (IH Hr).
+      destruct (is_newline p) eqn:E.
+      + destruct p; try discriminate. cbn [split_lines]. constructor; [constructor | exact IH].
+      + assert (Hne : p <> PNewLine) by (intros ->; discriminate).
+        destruct Hp as [-> | Hp]; [congruence |].
+        rewrite split_lines_cons by exact Hne. pose proof (split_lines_nonnil r) as Hn.
+        destruct (split_lines r) as [| l ls]; [congruence |].
+        inversion IH as [| ? ? Hl Hls]; subst. cbn [hd tl].
+        constructor; [constructor; assumption | exact Hls].
+  Qed.
+
+  (** a part of a multi-line template whose value the documentation defines *)
+  Definition doc_part_ml (sty : style T) (p : part) : Prop :=
+    match p with
+    | PNewLine => True
+    | _ => doc_part sty p
+    end.
+
+  Definition doc_line (sty : style T) (s : snapshot) (seg : list part) : list text :=
+    match concat (map (doc_text sty s) seg) with
+    | [] => []
+    | line => split_nl line []
+    end.
+
+  (** THE property for multi-line templates of literals and documented, non-wide, non-shadowed
+      keys: every template line of every frame shows the documented values of the state the call
+      leaves behind, all lines from that one state and the clock readings of that one call *)
+  Lemma frame_documented_lines : forall (b : bstate T) o e lines,
+    snd (bstep TO F tw b (o, e)) = Some lines ->
+    let b' := fst (bstep TO F tw b (o, e)) in
+    b_status b' <> DoneHidden ->
+    Forall (doc_part_ml (b_style b')) (template (b_style b')) ->
+    lines = join_lines (map (doc_line (b_style b') (snapshot_of b' (e_obs e)))
+                            (split_lines (template (b_style b')))).
+  Proof.
+    intros b o e lines Hd b' Hs Hp.
+    rewrite (frame_is_post_state TO F tw b o e lines Hd). fold b'.
+    assert (Hsegs : Forall (Forall (doc_part (b_style b'))) (split_lines (template (b_style b')))).
+    { apply split_lines_Forall. eapply Forall_impl; [| exact Hp].
+      intros p Hq. destruct p; [right; exact Hq | right; exact Hq | left; reflexivity]. }
+    assert (Hgoal : format_state TO F (b_style b') (snapshot_of b' (e_obs e)) tw
+                    = join_lines (map (doc_line (b_style b') (snapshot_of b' (e_obs e)))
+                                      (split_lines (template (b_style b'))))).
+    { rewrite format_state_segs. rewrite format_segs_narrow.
+      - f_equal. apply map_ext_in. intros seg Hin. rewrite Forall_forall in Hsegs.
+        destruct (doc_parts_text (b_style b') (snapshot_of b' (e_obs e)) seg (Hsegs seg Hin))
+          as [H1 _].
+        unfold doc_line. rewrite H1. reflexivity.
+      - eapply Forall_impl; [| exact Hsegs]. intros seg Hseg.
+        apply (doc_parts_text (b_style b') (snapshot_of b' (e_obs e)) seg Hseg). }
+    unfold draw. destruct (b_status b') eqn:Es; try congruence; exact Hgoal.
+  Qed.
+
+  (** ---------------------------------------------------------------- a wide key inside a line *)
+  Lemma wide_trim : forall (X Y : text) (a b : text),
+    ~ In 0 b ->
+    match rev (a ++ 0 :: b) with 0 :: _ => X | _ => Y end = match b with [] => X | _ => Y end.
+  Proof.
+    intros X Y a b Hb. rewrite rev_app_distr. destruct b as [| c b'].
+    - reflexivity.
+    - change (rev (0 :: c :: b')) with (rev (c :: b') ++ [0])%list.
+      destruct (rev (c :: b')) as [| x l] eqn:E.
+      + apply (f_equal (@List.length N)) in E. rewrite rev_length in E. discriminate E.
+      + assert (Hx : In x (c :: b')) by (apply in_rev; rewrite E; left; reflexivity).
+        cbn [app]. destruct x as [| px]; [exfalso; apply Hb; exact Hx | reflexivity].
+  Qed.
+
+  Lemma wide_line_parts : forall (sty : style T) s pre post k wdk cur0,
+    render_key TO F sty s k None = ([0], Some wdk) ->
+    Forall (part_narrow TO F sty s) pre ->
+    Forall (part_narrow TO F sty s) post ->
+    render_parts TO F sty s (pre ++ PKey k None :: post) cur0 None
+    = (cur0 ++ concat (map (part_text TO F sty s) pre) ++ 0 :: concat (map (part_text TO F sty s) post),
+       Some wdk).
+  Proof.
+    intros sty s pre post k wdk cur0 Hk Hpre Hpost.
+    rewrite render_parts_app_narrow by exact Hpre. cbn [render_parts]. rewrite Hk.
+    rewrite render_parts_narrow by exact Hpost. rewrite <- !app_assoc. reflexivity.
+  Qed.
+
+  Lemma wide_key_single_line : forall (sty : style T) s pre post k,
+    Forall (part_narrow TO F sty s) pre ->
+    Forall (part_narrow TO F sty s) post ->
+    single_line (pre ++ PKey k None :: post).
+  Proof.
+    intros sty s pre post k Hpre Hpost. unfold single_line. apply Forall_app. split.
+    - eapply narrow_single_line; exact Hpre.
+    - constructor; [discriminate | eapply narrow_single_line; exact Hpost].
+  Qed.
+
+  (** {wide_msg} anywhere in a line: the message, truncated or padded to exactly the columns the
+      rest of the line leaves free, sits where the placeholder is; trailing blanks are trimmed
+      when nothing follows it *)
+  Lemma wide_msg_line : forall (sty : style T) s pre post,
+    lookup "wide_msg" (customs sty) = None ->
+    template sty = (pre ++ PKey "wide_msg" None :: post)%list ->
+    Forall (part_narrow TO F sty s) pre ->
+    Forall (part_narrow TO F sty s) post ->
+    let a := concat (map (part_text TO F sty s) pre) in
+    let b := concat (map (part_text TO F sty s) post) in
+    ~ In 0 a -> ~ In 0 b ->
+    let m := pad_left_trunc (s_message s) (tw - text_width (a ++ b)) in
+    format_state TO F sty s tw
+    = split_nl (a ++ (match b with [] => trim_end m | _ => m end) ++ b) [].
+  Proof.
+    intros sty s pre post Hc Ht Hpre Hpost a b Ha Hb m.
+    rewrite format_state_single_line
+      by (rewrite Ht; eapply wide_key_single_line; eassumption).
+    unfold format_state_single. rewrite Ht.
+    rewrite (wide_line_parts sty s pre post "wide_msg" WMsg []);
+      [| rewrite builtin_render by exact Hc; reflexivity | exact Hpre | exact Hpost ].
+    cbn [app]. fold a b.
+    assert (Hne : (a ++ 0 :: b)%list <> []) by (destruct a; discriminate).
+    destruct (a ++ 0 :: b)%list as [| c0 cr] eqn:E; [congruence |]. rewrite <- E. clear Hne.
+    unfold expand_wide. cbv zeta.
+    rewrite (replace0_marker [] a b Ha Hb). cbn [app].
+    rewrite wide_trim by exact Hb. rewrite replace0_marker by assumption. reflexivity.
+  Qed.
+
+  (** {wide_bar} anywhere in a line: a bar of exactly the columns the rest of the line leaves free *)
+  Lemma wide_bar_line : forall (sty : style T) s pre post,
+    lookup "wide_bar" (customs sty) = None ->
+    template sty = (pre ++ PKey "wide_bar" None :: post)%list ->
+    Forall (part_narrow TO F sty s) pre ->
+    Forall (part_narrow TO F sty s) post ->
+    let a := concat (map (part_text TO F sty s) pre) in
+    let b := concat (map (part_text TO F sty s) post) in
+    ~ In 0 a -> ~ In 0 b ->
+    format_state TO F sty s tw
+    = split_nl (a ++ f_bar F (o_fraction (s_obs s)) (tw - text_width (a ++ b)) ++ b) [].
+  Proof.
+    intros sty s pre post Hc Ht Hpre Hpost a b Ha Hb.
+    rewrite format_state_single_line
+      by (rewrite Ht; eapply wide_key_single_line; eassumption).
+    unfold format_state_single. rewrite Ht.
+    rewrite (wide_line_parts sty s pre post "wide_bar" WBar []);
+      [| rewrite builtin_render by exact Hc; reflexivity | exact Hpre | exact Hpost ].
+    cbn [app]. fold a b.
+    assert (Hne : (a ++ 0 :: b)%list <> []) by (destruct a; discriminate).
+    destruct (a ++ 0 :: b)%list as [| c0 cr] eqn:E; [congruence |]. rewrite <- E. clear Hne.
+    unfold expand_wide. cbv zeta.
+    rewrite (replace0_marker [] a b Ha Hb). cbn [app].
+    rewrite replace0_marker by assumption. reflexivity.
+  Qed.
 End Frames.
 Close Scope string_scope.
+
+(** ------------------------------------------------------------------ the one cross-line effect *)
+(** [wide] is never reset by format_state and WideElement::expand replaces every NUL of the line
+    it is applied to: after a {wide_msg} line, a NUL inside the TEXT of a later line (here: in the
+    prefix) is replaced by the padded message.  This is why [format_state_lines] asks for
+    [line_ok]; the harness replays this witness on the implementation (corpus:nul-carry). *)
+Open Scope string_scope.
+Definition carry_style : style htracker :=
+  {| tick_strings := [[97]; [98]]; sty_tab := 8; customs := [];
+     template := [PKey "wide_msg" None; PNewLine; PKey "prefix" None] |}.
+Definition carry_snapshot : snapshot :=
+  {| s_pos := 0; s_len := None; s_tick := 0; s_finished := false;
+     s_message := [109]; s_prefix := [97; 0; 98];
+     s_obs := {| o_fraction := 0; o_elapsed := 0; o_eta := 0; o_duration := 0; o_per_sec := 0 |} |}.
+Close Scope string_scope.
+
+Lemma wide_carry_witness :
+  format_state htracker_ops (table_formatters []) carry_style carry_snapshot 8
+  = [[109]; [97; 109; 32; 32; 32; 32; 32; 98]]
+  /\ join_lines (map (line_alone htracker_ops (table_formatters []) 8 carry_style carry_snapshot)
+                     (split_lines (template carry_style)))
+     = [[109]; [97; 0; 98]].
+Proof. split; vm_compute; reflexivity. Qed.
+
+Lemma wide_carry_exists :
+  exists (sty : style htracker) (s : snapshot) (tw : N),
+    format_state htracker_ops (table_formatters []) sty s tw
+    <> join_lines (map (line_alone htracker_ops (table_formatters []) tw sty s)
+                       (split_lines (template sty))).
+Proof.
+  exists carry_style, carry_snapshot, 8. destruct wide_carry_witness as [H1 H2].
+  rewrite H1, H2. discriminate.
+Qed.
